@@ -96,7 +96,12 @@ func compactOr(b []byte) string {
 
 func playRoute(v *vector) *routeObs {
 	a := &collectAIO{}
-	r, err := router.New(a, newMetrics(), &router.Config{Size: 10, Workers: 1})
+	rcfg := &router.Config{Size: 10, Workers: 1}
+	for _, src := range v.Sources {
+		data, _ := json.Marshal(map[string]string{"key": src.Key})
+		rcfg.Sources = append(rcfg.Sources, router.SourceConfig{Name: src.Name, Type: "tag", Data: data})
+	}
+	r, err := router.New(a, newMetrics(), rcfg)
 	if err != nil {
 		panic(fmt.Sprintf("routex: router.New: %v", err))
 	}
@@ -104,6 +109,12 @@ func playRoute(v *vector) *routeObs {
 	tags := map[string]string{"resonate:invoke": v.Tag}
 	if v.Tag == "<absent>" {
 		tags = map[string]string{"other": "x"}
+	}
+	if len(v.PTags) > 0 {
+		tags = map[string]string{}
+		for _, kv := range v.PTags {
+			tags[kv[0]] = kv[1]
+		}
 	}
 	p := &promise.Promise{Id: promiseId, State: promise.Pending, Timeout: 100, Tags: tags}
 
@@ -119,7 +130,7 @@ func playRoute(v *vector) *routeObs {
 
 	cqes := r.Process([]*sqeT{sqe})
 
-	o := &routeObs{E: "route", I: v.I, Tag: v.Tag, Class: v.Class}
+	o := &routeObs{E: "route", I: v.I, Tag: v.Tag, Class: v.Class, Table: v.Table, Tagset: tagsetOf(v)}
 	if len(cqes) != 1 || cqes[0] == nil {
 		o.Err = true // no answer at all: cannot be told apart from an error by the kernel
 		return o
@@ -201,6 +212,27 @@ func playSend(v *vector) *sendObs {
 	}
 
 	s.VerifWorker().Process(sqe)
+
+	// a real plugin puts the message on the wire LATER, from its own goroutine, while the sender goes on
+	// with the next submission: a second, different message goes through the same worker before the
+	// first one is looked at
+	decoy := &sqeT{
+		Id: "e2",
+		Submission: &t_aio.Submission{
+			Kind: t_aio.Sender,
+			Tags: map[string]string{"id": "e2", "name": "EnqueueTasks"},
+			Sender: &t_aio.SenderSubmission{
+				Task: &task.Task{Id: "__notify:zz:zz", Counter: 9, Timeout: 100, State: task.Enqueued, RootPromiseId: "zz",
+					Recv: []byte(v.Recv), Mesg: &message.Mesg{Type: message.Notify, Root: "zz", Leaf: ""}, CreatedOn: ptr(int64(5))},
+				Promise: &promise.Promise{Id: "zz", State: promise.Rejected, Timeout: 100, Tags: map[string]string{"zz": "zz"}, CreatedOn: ptr(int64(1)), CompletedOn: ptr(int64(4))},
+				ClaimHref:     baseUrl + "/tasks/claim/zz/9",
+				CompleteHref:  baseUrl + "/tasks/complete/zz/9",
+				HeartbeatHref: baseUrl + "/tasks/heartbeat/zz/9",
+			},
+		},
+		Callback: func(*t_aio.Completion, error) {},
+	}
+	s.VerifWorker().Process(decoy)
 
 	o := &sendObs{E: "send", I: v.I, Table: v.Table, Recv: v.Recv, Kind: v.Kind,
 		TaskId: id, TaskCounter: taskCounter, PromiseId: promiseId, Base: baseUrl}
